@@ -595,7 +595,13 @@ func (rr *runRec) doOp(client, idx int, op Op) {
 	case "add":
 		res = rr.addBar(op.B)
 	case "write":
-		n, err := rr.p.Write([]byte(op.S))
+		buf := []byte(op.S)
+		n, err := rr.p.Write(buf)
+		// io.Writer's contract: the callee must not retain the slice. Reuse it at
+		// once, as a caller with a scratch buffer would.
+		for i := range buf {
+			buf[i] = '#'
+		}
 		res = fmt.Sprintf("%d,%v", n, err)
 		if err == mpb.ErrDone {
 			res = fmt.Sprintf("%d,ErrDone", n)
